@@ -1,7 +1,7 @@
 SPECIFICATION Spec
 CONSTANTS
   Family = "text"
-  MaxN = 3
+  MaxN = 1
   MaxLen = 5
   MaxBody = 4
   Export = TRUE
